@@ -2,7 +2,7 @@
    Print Assumptions.  Costs are integers (dyadic floats scaled by 2^30; 2^-26 is 16). *)
 From Coq Require Import ZArith List Bool.
 From Centro Require Import Base.Sx Model.Lapjv Spec.Lapjv Proofs.LapjvCert Proofs.LapjvRefute Proofs.LapjvTrack
-  Proofs.LapjvPhases.
+  Proofs.LapjvPhases Proofs.LapjvAbstract.
 Import ListNotations.
 Open Scope Z_scope.
 
@@ -87,3 +87,43 @@ Theorem C01_column_reduction_inv : forall n tri,
      (j < n)%nat /\ exists c, gete (v_init n tri) j = Fin c /\ In (i, j, c) tri).
 Proof. exact column_reduction_inv. Qed.
 Print Assumptions C01_column_reduction_inv.
+
+(* any run of the model, in any variant, that passes the verified checker on its own output is optimal
+   (this is the per-instance route by which the Fixed variants decide attribution of F1 / F6) *)
+Theorem C01_model_certified_optimal : forall rt eps epsr k n tri,
+  certified n tri (lapjv rt eps epsr k n tri) = true ->
+  exists out, lapjv rt eps epsr k n tri = Some out /\ Optimal n tri (x_of out).
+Proof. exact (fun rt eps epsr k n tri => certified_optimal n tri (lapjv rt eps epsr k n tri)). Qed.
+Print Assumptions C01_model_certified_optimal.
+
+(* phase 2 of the model, Fixed variant (:89-95): on finite prices the scan over the row's own (j, c)
+   pairs returns a lower bound of every other candidate of that row - exactly the premise of
+   reduction_transfer_fixed below, and exactly what the AsIs scan (other row's columns) lacks. *)
+Theorem C01_rt_scan_fixed_bounds : forall j1 (vz : nat -> Z) v (row : list (nat * Z)) mu' at',
+  (forall j, gete v j = Fin (vz j)) ->
+  rt_scan j1 v (map fst row) (map Fin (map snd row)) PInf None = (mu', at') ->
+  forall jt c, In (jt, c) row -> jt <> j1 -> exists m, mu' = Fin m /\ m <= c - vz jt.
+Proof. exact rt_scan_fixed_bounds. Qed.
+Print Assumptions C01_rt_scan_fixed_bounds.
+
+(* phases 2-3 at the abstract level (prices as functions): a reduction transfer whose mu bounds the row's
+   own other candidates, and a strict augmenting-row-reduction step, keep SlackV.
+   _partial: the refinement from the array model (lists over ext, x as a list with n = unassigned) to these
+   steps for the whole of phases 2-4 (lapjv_fixed_cert: wf -> has_PM -> cert_ok (lapjv Fixed 0 epsr k)) is not
+   proved; the per-instance checker (C01_cert_sound, C01_model_certified_optimal) covers the gap. *)
+Theorem C01_reduction_transfer_fixed_partial : forall costf v x i j1 c1 mu,
+  injective x -> SlackV costf v x -> x i = Some j1 -> costf i j1 = Some c1 ->
+  (forall j' c', costf i j' = Some c' -> j' <> j1 -> mu <= red v j' c') ->
+  red v j1 c1 <= mu ->
+  SlackV costf (updv v j1 (mu - red v j1 c1)) x.
+Proof. exact reduction_transfer_fixed. Qed.
+Print Assumptions C01_reduction_transfer_fixed_partial.
+
+Theorem C01_arr_step_strict_partial : forall costf v x i j1 c1 u2,
+  SlackV costf v x -> x i = None -> costf i j1 = Some c1 ->
+  (forall j' c', costf i j' = Some c' -> j' <> j1 -> u2 <= red v j' c') ->
+  red v j1 c1 <= u2 ->
+  forall x', (forall k, k <> i -> (x' k = x k /\ x k <> Some j1) \/ (x k = Some j1 /\ x' k = None)) -> x' i = Some j1 ->
+  SlackV costf (updv v j1 (u2 - red v j1 c1)) x'.
+Proof. exact arr_step_strict. Qed.
+Print Assumptions C01_arr_step_strict_partial.
